@@ -179,9 +179,13 @@ def _abstract_run(fn, name, val, roles, functions=None, _depth=0, free=None):
     def has_cmp(e):
         return any(cmp_value(x) is not None for x in ast.walk(e))
 
+    env = {}        # locals assigned along the walk (flow-sensitive)
+
     def eval_bool(e):
         if isinstance(e, ast.Constant) and isinstance(e.value, bool):
             return e.value
+        if isinstance(e, ast.Name) and e.id in env:
+            return eval_bool(env[e.id])
         if isinstance(e, ast.Call) and isinstance(e.func, ast.Name) \
                 and e.func.id == "bool" and len(e.args) == 1:
             return eval_bool(e.args[0])
@@ -284,6 +288,12 @@ def _abstract_run(fn, name, val, roles, functions=None, _depth=0, free=None):
             if isinstance(a, ast.Return):
                 return ("RET", eval_bool(a.value) if a.value is not None
                         else None)
+            if isinstance(a, ast.Assign) and len(a.targets) == 1 \
+                    and isinstance(a.targets[0], ast.Name) \
+                    and isinstance(a.value, (ast.Constant, ast.Call, ast.Compare,
+                                             ast.BoolOp, ast.UnaryOp,
+                                             ast.IfExp, ast.Name)):
+                env[a.targets[0].id] = a.value
             if isinstance(a, ast.Raise):
                 nid = succ["exc"]
                 continue
